@@ -483,6 +483,17 @@ template <class M, class N> void ev_lcm(M m, N n)
     if (!ok) { e.flag("trap", true); }
     e.end();
 }
+template <class T, class U> void put_cmp(T t, U u)
+{
+    bool r[6] = {impl::cmp_equal(t, u), impl::cmp_not_equal(t, u), impl::cmp_less(t, u),
+                 impl::cmp_less_equal(t, u), impl::cmp_greater(t, u), impl::cmp_greater_equal(t, u)};
+    g_out += '[';
+    for (int i = 0; i < 6; ++i) {
+        if (i) { g_out += ','; }
+        g_out += r[i] ? "true" : "false";
+    }
+    g_out += ']';
+}
 template <class T, class U> void ev_cmp(T t, U u)
 {
     Ev e("cmp");
@@ -499,17 +510,97 @@ template <class T, class U> void ev_cmp(T t, U u)
     e.end();
 }
 
-// every single-type binary function on one pair
+// every single-type binary function on one pair, as one grouped event "bin"
 template <class T> void binary_all(T x, T y, bool with_ipow)
 {
-    ev_add_sat<T>(x, y);
-    ev_div_sat<T>(x, y);
-    ev_midpoint<T>(x, y);
-    ev_gcd<T, T>(x, y);
-    ev_lcm<T, T>(x, y);
-    ev_idiv<T>(x, y);
-    ev_cmp<T, T>(x, y);
-    if (with_ipow) { ev_ipow<T>(x, y); }
+    std::string traps;
+    auto trap = [&](char const* n) {
+        if (!traps.empty()) { traps += ','; }
+        traps += '"';
+        traps += n;
+        traps += '"';
+    };
+    Ev e("bin");
+    e.type(Tag<T>{}).val("x", x).val("y", y);
+    e.val("add_sat", impl::add_sat(x, y));
+    {
+        T r{};
+        bool ok = guarded([&] { r = impl::div_sat(x, y); });
+        e.val("div_sat", ok ? r : T(0));
+        if (!ok) { trap("div_sat"); }
+    }
+    e.val("midpoint", impl::midpoint(x, y));
+    {
+        using R = decltype(impl::gcd(x, y));
+        static_assert(std::is_same_v<R, T>);
+        R r{};
+        bool ok = guarded([&] { r = impl::gcd(x, y); });
+        e.val("gcd", ok ? r : R(0));
+        if (!ok) { trap("gcd"); }
+    }
+    {
+        using R = decltype(impl::lcm(x, y));
+        static_assert(std::is_same_v<R, T>);
+        R r{};
+        bool ok = guarded([&] { r = impl::lcm(x, y); });
+        e.val("lcm", ok ? r : R(0));
+        if (!ok) { trap("lcm"); }
+    }
+    {
+        T q{}, r{};
+        bool ok = guarded([&] { impl::idiv(x, y, q, r); });
+        e.key("idiv");
+        g_out += '[';
+        e.raw(ok ? q : T(0));
+        g_out += ',';
+        e.raw(ok ? r : T(0));
+        g_out += ']';
+        if (!ok) { trap("idiv"); }
+    }
+    e.key("cmp");
+    put_cmp(x, y);
+    if (with_ipow) { e.val("ipow", impl::ipow(x, y)); }
+    if (!traps.empty()) {
+        e.key("traps");
+        g_out += '[';
+        g_out += traps;
+        g_out += ']';
+    }
+    e.str("inst", tname<T>()).end();
+}
+
+// the mixed-type functions on one pair, as one grouped event "mix"
+template <class M, class N> void mixed_all(M m, N n)
+{
+    using R = decltype(impl::gcd(m, n));
+    static_assert(std::is_same_v<R, decltype(impl::lcm(m, n))>);
+    std::string traps;
+    Ev e("mix");
+    e.type(Tag<M>{}).type2(Tag<N>{}).rtype(Tag<R>{}).val("x", m).val("y", n);
+    e.key("cmp");
+    put_cmp(m, n);
+    {
+        R r{};
+        bool ok = guarded([&] { r = impl::gcd(m, n); });
+        e.val("gcd", ok ? r : R(0));
+        if (!ok) { traps += "\"gcd\""; }
+    }
+    {
+        R r{};
+        bool ok = guarded([&] { r = impl::lcm(m, n); });
+        e.val("lcm", ok ? r : R(0));
+        if (!ok) {
+            if (!traps.empty()) { traps += ','; }
+            traps += "\"lcm\"";
+        }
+    }
+    if (!traps.empty()) {
+        e.key("traps");
+        g_out += '[';
+        g_out += traps;
+        g_out += ']';
+    }
+    e.end();
 }
 
 template <class T> void unary_all(T x)
@@ -542,12 +633,8 @@ int replay8(std::string const& path)
             auto const ia = int8_t(ua), ib = int8_t(ub);
             binary_all<uint8_t>(ua, ub, true);
             binary_all<int8_t>(ia, ib, true);
-            ev_cmp<uint8_t, int8_t>(ua, ib);
-            ev_cmp<int8_t, uint8_t>(ia, ub);
-            ev_gcd<uint8_t, int8_t>(ua, ib);
-            ev_gcd<int8_t, uint8_t>(ia, ub);
-            ev_lcm<uint8_t, int8_t>(ua, ib);
-            ev_lcm<int8_t, uint8_t>(ia, ub);
+            mixed_all<uint8_t, int8_t>(ua, ib);
+            mixed_all<int8_t, uint8_t>(ia, ub);
         } else if (m == "rot") {
             ev_rot<uint8_t>(uint8_t(a), j.at("b").get<int>());
         } else {
@@ -645,13 +732,15 @@ int sweep16(bool thorough, unsigned part, unsigned nparts, uint64_t seed)
             }
         }
         for (int e = -2; e <= 20; ++e) {
-            ev_ipow_t<uint16_t(2)>(uint16_t(e));
             ev_ipow_t<int16_t(2)>(int16_t(e));
             ev_ipow_t<int16_t(-3)>(int16_t(e));
-            ev_ipow_t<uint8_t(2)>(uint8_t(e));
             ev_ipow_t<int8_t(2)>(int8_t(e));
-            ev_ipow_t<uint8_t(3)>(uint8_t(e));
             ev_ipow_t<int8_t(-2)>(int8_t(e));
+            if (e >= 0) {
+                ev_ipow_t<uint16_t(2)>(uint16_t(e));
+                ev_ipow_t<uint8_t(2)>(uint8_t(e));
+                ev_ipow_t<uint8_t(3)>(uint8_t(e));
+            }
         }
     }
     return 0;
@@ -778,7 +867,8 @@ template <class T> void wide_type(bool thorough, uint64_t seed)
     std::vector<T> bases = bnd;
     for (int b = -12; b <= 12; ++b) { bases.push_back(T(b)); }
     for (T b : bases) {
-        for (int e = -1; e <= 66; ++e) { ev_ipow<T>(b, T(e)); }
+        // (a negative exponent converted to an unsigned type would make the loop of ipow run "forever")
+        for (int e = std::is_signed_v<T> ? -1 : 0; e <= 66; ++e) { ev_ipow<T>(b, T(e)); }
     }
 }
 
@@ -812,12 +902,14 @@ int wide(bool thorough, std::string const& which, uint64_t seed)
             ev_ipow_t<3>(e);
             ev_ipow_t<-2>(e);
             ev_ipow_t<10>(e);
-            ev_ipow_t<2U>(unsigned(e));
-            ev_ipow_t<7U>(unsigned(e));
             ev_ipow_t<int64_t(2)>(int64_t(e));
             ev_ipow_t<int64_t(-10)>(int64_t(e));
-            ev_ipow_t<uint64_t(2)>(uint64_t(e));
-            ev_ipow_t<uint64_t(3)>(uint64_t(e));
+            if (e >= 0) {
+                ev_ipow_t<2U>(unsigned(e));
+                ev_ipow_t<7U>(unsigned(e));
+                ev_ipow_t<uint64_t(2)>(uint64_t(e));
+                ev_ipow_t<uint64_t(3)>(uint64_t(e));
+            }
         }
     } else {
         std::fprintf(stderr, "unknown wide type %s\n", which.c_str());
